@@ -14,6 +14,13 @@ pub fn parse_pipeline(def: &ast::PipelineDefinition, context: &mut Context) -> T
         graphics_pipeline_state: None,
     };
 
+    // Pipelines are selected by name so each name may only be defined once
+    for before_pipeline in &context.module.pipelines {
+        if before_pipeline.name.node == def.name.node {
+            return Err(TyperError::PipelineNameDuplicate(def.name.location));
+        }
+    }
+
     // Check for duplicate properties
     for i in 1..def.properties.len() {
         let new_property = &def.properties[i];
